@@ -35,7 +35,13 @@ def conv(o):
     return repr(o)
 
 
+KEEP_TIMER_LINES = [False]  # C16's step-driven twins never start the stop watch: there the two wall-clock lines are
+# deterministic ("execution time: 0.00s", no instructions-per-second line) and are compared like everything else
+
+
 def strip_timer(text):
+    if KEEP_TIMER_LINES[0]:
+        return text
     return "\n".join(l for l in text.splitlines() if not l.startswith("execution time") and not l.startswith("instructions per second"))
 
 
